@@ -1,6 +1,6 @@
 use super::swift_utils::{
-    format_swift_amount_for_currency, parse_amount_with_currency, parse_currency_non_commodity,
-    parse_exact_length, parse_uppercase,
+    ensure_ascii, format_swift_amount_for_currency, parse_amount_with_currency,
+    parse_currency_non_commodity, parse_exact_length, parse_uppercase,
 };
 use crate::errors::ParseError;
 use crate::traits::SwiftField;
@@ -78,6 +78,8 @@ impl SwiftField for Field71F {
     where
         Self: Sized,
     {
+        ensure_ascii(input, "Field 71F")?;
+
         if input.len() < 4 {
             return Err(ParseError::InvalidFormat {
                 message: format!(
@@ -136,6 +138,8 @@ impl SwiftField for Field71G {
     where
         Self: Sized,
     {
+        ensure_ascii(input, "Field 71G")?;
+
         if input.len() < 4 {
             return Err(ParseError::InvalidFormat {
                 message: format!(
